@@ -330,21 +330,26 @@ def boundary_candidates(h, limit=4096):
     spec = h.kv.get("any_sizes")
     if not spec:
         return None
-    sizes = [int(x) for x in spec.split(",")]
-    import itertools
+    sizes = [int(x) for x in spec.split(",")]   # NB: an array [T; N] draws N separate values
+    import itertools, random
     per = []
     for n in sizes:
         if n == 1:
-            vals = [[v] for v in range(256)]
+            vals = [[v] for v in (range(256) if len(sizes) <= 2 else (0, 1, 2, 3, 16, 100, 127, 128, 255))]
         else:
             vals = [[0] * n, [255] * n, [1] + [0] * (n - 1), [0] * (n - 1) + [128], [0] * (n - 1) + [1], [3] + [1] * (n - 1)]
             vals += [[v] + [0] * (n - 1) for v in (2, 7, 16, 100, 200)] + [[255] * (n - 1) + [127]]
         per.append(vals)
-    combos = []
-    for c in itertools.product(*per):
-        combos.append(list(c))
-        if len(combos) >= limit:
-            break
+    total = 1
+    for v in per:
+        total *= len(v)
+    if total <= limit:
+        combos = [list(c) for c in itertools.product(*per)]
+    else:
+        rnd = random.Random(12345)
+        combos = [[v[0] for v in per], [v[-1] for v in per], [v[1 % len(v)] for v in per]]
+        while len(combos) < limit:
+            combos.append([rnd.choice(v) for v in per])
     body = ", ".join("vec![" + ", ".join("vec![" + ", ".join(map(str, d)) + "]" for d in c) + "]" for c in combos)
     return (f"#[test]\nfn kani_concrete_playback_boundary_scan() {{\n    let cands: Vec<Vec<Vec<u8>>> = vec![{body}];\n"
             f"    let mut hits = 0;\n    for c in cands {{\n        let shown = format!(\"{{:?}}\", c);\n"
